@@ -101,7 +101,7 @@ func Run(c *core.Ctx) {
 	// ---- MITM
 	rec3 := &core.Recorder{}
 	w.UseRecorder(rec3)
-	mbehs, err := h1.Simulate(c, "h1_c02_msim", h1.SimOpts{MaxReq: c.Pick(3, 4), Mods: true, Connect: "mitm", N: c.Pick(500, 3000), Depth: 90})
+	menvs, err := h1.SimulateEnv(c, "h1_c02_menv", c.Pick(3, 4), false, true, true, c.Pick(800, 6000))
 	if err != nil {
 		c.Inconclusive("%v", err)
 		return
@@ -109,8 +109,7 @@ func Run(c *core.Ctx) {
 	var mres []*h1.Result
 	mopts := h1.RunOpts{ProxyAddr: w.MProxyAddr, Origin: w.TLSOrigin, Rec: rec3, Live: w.Live}
 	mseen := map[string]int{}
-	for _, b := range mbehs {
-		env := h1.EnvOf(b)
+	for _, env := range menvs {
 		if len(env.Connect) == 0 || !env.Connect[0] || mseen[env.Key] >= c.Pick(1, 4) {
 			continue
 		}
